@@ -37,7 +37,7 @@ add(
 add(
     "C03",
     PBT + "a brute-force interval oracle with the property's 2 ms edge band (MUST / MAY / NEVER sets), on all three backends",
-    "Generated bucket contents (nested/overlapping/zero-length/24 h events) and windows (open-ended, zero-width, sub-ms, any offset) with limits; both directions checked (nothing missing, nothing extra), order, limit prefix, count band, clip shape.",
+    "Generated bucket contents (nested/overlapping/zero-length/24 h events) and windows (open-ended, zero-width, sub-ms, any offset) with limits; both directions checked (nothing missing, nothing extra), order, limit prefix, count band, clip shape. Extra phase: a 10 301-event bucket per backend in groups of three per instant, read whole, with limits around 10 000 and through windows (thorough: three more sizes).",
     "Windows within ~100 s of the base instant (or of any event edge), <= 10 events plus a short history of re-timings; base instants incl. the hours before the UTC epoch; 2 ms band and 24 h cap from the property.",
 )
 add(
